@@ -1,7 +1,7 @@
 """C01 — lossless one-shot round trip.  For generated (input, parameter vector, entry point): the real library compresses;
 monitor = ZSTD_decompress gives back the input; tie = the independent Lean decoder (Model/Frame.lean) regenerates the same bytes and
 its decode trace satisfies Conform.checkFrame (the frame lies in the image of the modelled format)."""
-import build, zv, frames, datagen
+import build, zv, frames, datagen, segfam
 
 ASSUMPTIONS = [
     "the compressor front end (match finders, block splitter, entropy-mode heuristics) is an oracle: its answers are validated per frame by the independent Lean decoder + conformance predicate",
@@ -78,10 +78,17 @@ def gen_cases(ctx, n, maxsize):
 
 def run(ctx, cases, exe, want_conform=True):
     """returns per-case dict(frame, cdec, conform)"""
-    lines = ["comp2 %s %s %s%s" % (c["api"], frames.pstr(c["p"]), frames.hx(c["x"]), (" " + frames.hx(c["d"])) if c["d"] else "") for c in cases]
+    lines = ["comp2 %s %s %s%s" % (c["api"], frames.pstr(c["p"]), frames.hx(c["x"]), (" " + frames.hx(c["d"])) if c["d"] else "") for c in cases if not c.get("pre")]
     def comp(chunk):
         return frames.run_lines(exe, chunk)[1]
     frs = frames.parallel(comp, frames.split_chunks(lines, 16))
+    # cases with a controlled memory layout of the source (byte in front of the source buffer chosen) go through harness/zvh_seg.c
+    plines = [segfam.pre_line(c) for c in cases if c.get("pre")]
+    if plines:
+        sexe = segfam.harness()
+        pfr = segfam.run_all(sexe, plines)
+        it, ip = iter(frs), iter(pfr)
+        frs = [next(ip) if c.get("pre") else next(it, "err missing") for c in cases]
     dl, cl = [], []
     for c, f in zip(cases, frs):
         c["frame"] = f
@@ -163,7 +170,10 @@ def correspondence(ctx):
     ent = tie_entropy(ctx)
     n = 1500 if ctx.quick() else 30000
     maxsize = 262144 if ctx.quick() else 4 << 20
-    cases = run(ctx, gen_cases(ctx, n, maxsize), exe)
+    # directed: the beginning of the input recurs behind a byte equal to the byte stored in front of the source buffer (segfam.edge_cases)
+    base = gen_cases(ctx, n, maxsize)
+    edge = segfam.edge_cases(ctx.rng, 208 if ctx.quick() else 2080, 18 if ctx.quick() else 180)      # (drawn after the others: their stream is unchanged)
+    cases = run(ctx, base + edge, exe)
     import hashlib
     cov = 0
     kinds, apis, sizes = {}, {}, {"0": 0, "<1K": 0, "<64K": 0, "<1M": 0, ">=1M": 0}
@@ -175,6 +185,7 @@ def correspondence(ctx):
         n_ = len(c["x"])
         sizes["0" if n_ == 0 else "<1K" if n_ < 1024 else "<64K" if n_ < 65536 else "<1M" if n_ < (1 << 20) else ">=1M"] += 1
         rep = dict(kind="monitor", api=c["api"], params=c["p"], input_hex=frames.hx(c["x"])[:8400000], dict_hex=frames.hx(c["d"]), frame=c["frame"][:8400000])
+        if c.get("pre"): rep["pre"] = c["pre"]
         if c["frame"].startswith("err"):
             if c["frame"] in ("err parameter_outOfBound", "err parameter_unsupported"):
                 rejected_params += 1
@@ -193,7 +204,10 @@ def correspondence(ctx):
             if n_ > 64:
                 nontrivial.add(hashlib.sha1(c["x"]).hexdigest() + frames.pstr(c["p"]) + c["api"])
         elif c["conform"].startswith("viol"):
-            pass    # conformance is C05's property; C01 only needs the independent decode to agree
+            # conformance is C05's property; C01 only needs the independent decode to agree - except, on the directed prefix-edge inputs, the rule
+            # that a match never reaches below the window / the start of the content: a decoder that keeps exactly one window cannot regenerate such a frame
+            if c.get("pre") and "violates window" in c["conform"]:
+                ctx.violation("single-call compression emitted a match that reaches below the window / the start of the content: %s (api %s, params %s)" % (c["conform"][:300], c["api"], frames.pstr(c["p"])), rep)
         else:
             # the independent decoder disagrees with the library on a frame the library round-trips
             ctx.violation("independent Lean decoder disagrees on a library frame: %r (C decoder: %r)" % (c["conform"], c["cdec"]),
@@ -204,7 +218,8 @@ def correspondence(ctx):
                 "LL-predef", "LL-rle", "LL-fse", "LL-repeat", "OF-predef", "OF-rle", "OF-fse", "OF-repeat", "ML-predef", "ML-rle", "ML-fse", "ML-repeat", "longNbSeq"]
     return dict(evaluations=len(cases), distinct_nontrivial=len(nontrivial),
                 rule="inputs from seeded structure-aware generators (text, random, periodic, repcode-heavy, small alphabets, mixed with long-distance copies, tiny sizes) x parameter vectors drawn from the accepted ranges x "
-                     "single-call entry points {compress2, compress, compressCCtx, compress_advanced, usingDict, usingCDict}; non-trivial = input > 64 bytes, round-tripped and independently decoded; distinct by (input hash, params, api)",
+                     "single-call entry points {compress2, compress, compressCCtx, compress_advanced, usingDict, usingCDict}; plus the directed prefix-edge family (tools/segfam.py: source at offset 1 of a heap block whose byte 0 is chosen, the beginning of the input "
+                     "recurring behind that byte, repeats exactly one window back; every strategy, both match-finder modes, windowLog 10..17; window rule of Conform checked on them); non-trivial = input > 64 bytes, round-tripped and independently decoded; distinct by (input hash, params, api)",
                 samples=[dict(api=c["api"], params=frames.pstr(c["p"]), kind=c["kind"], size=len(c["x"]), frame_bytes=len(c["frame"]) // 2, conform=c["conform"][:80]) for c in cases[:3]],
                 input_kinds=kinds, apis=apis, size_histogram=sizes, decoder_features_hit=[covnames[i] for i in range(len(covnames)) if cov >> i & 1 and covnames[i]],
                 decoder_features_missed=[covnames[i] for i in range(len(covnames)) if not (cov >> i & 1) and covnames[i]], params_rejected_by_setter=rejected_params,
@@ -230,7 +245,8 @@ def replay(ctx, data):
     x = bytes.fromhex(data["input_hex"]) if data.get("input_hex", "-") != "-" else b""
     d = bytes.fromhex(data["dict_hex"]) if data.get("dict_hex", "-") != "-" else b""
     p = {int(k): v for k, v in (data.get("params") or {}).items()}
-    cs = run(ctx, [dict(kind="replay", api=data.get("api", "c2"), p=p, x=x, d=d)], exe)
+    cs = run(ctx, [dict(kind="replay", api=data.get("api", "c2"), p=p, x=x, d=d, pre=data.get("pre"))], exe)
     c = cs[0]
     bad = c["frame"].startswith("err") or c["cdec"] != c["want"] or not c["conform"].startswith(("ok", "viol")) or any(a != c["want"] for a in c.get("vdec", {}).values())
+    bad = bad or bool(c.get("pre") and "violates window" in c["conform"])
     return dict(violates=bad, variants=c.get("vdec"), frame=c["frame"][:200], cdec=c["cdec"], conform=c["conform"][:300])
